@@ -28,6 +28,9 @@ TRUSTED_EXTRA = [
     "coq/extract/mode_capture.ml (they only choose which extracted step to apply)",
 ]
 ASSUMPTIONS = [
+    "the Coq theorems speak about the ProcessResult the protocol returns; that the SCRIPT reads exactly those bytes back "
+    "(wherever run() is evaluated and however the result is passed around before its fields are read) is covered by the "
+    "differential/oracle only (placement x churn family, debug and release profiles), not by a theorem",
     "the child is the only holder of the write ends (no grandchild inherits them); stdin policy is null",
     "a timeout is judged against wall-clock time measured around the call (Timeout reported => elapsed >= timeout; "
     "planned child duration > timeout + poll + slack => not Ok); near the boundary both outcomes are accepted",
@@ -58,9 +61,17 @@ def build_helper():
 # cases
 
 def case_line(c):
-    return "%s %d %s %s %d %d %d %d %s %d %s %s" % (
+    return "%s %d %s %s %d %d %d %d %s %d %s %s %s %s" % (
         c["id"], c["pin"], c["p1"], c["p2"], c["cap"], c["timeout"], c["poll"],
-        c["n1"], c["k1"], c["n2"], c["k2"], ",".join(c["actions"]) or "-")
+        c["n1"], c["k1"], c["n2"], c["k2"], ",".join(c["actions"]) or "-",
+        c.get("place", "top"), c.get("churn", "none"))
+
+
+# where run() is evaluated and how its result travels to the place that reads the fields
+# (harness/src/capture.rs build_script), and what allocates before the fields are read
+PLACES = ["top", "fn_direct", "read_in_fn", "fn_local", "fn_array_lit", "fn_array_push", "global_push",
+          "loop_push", "loop_local", "fn_loop", "nested", "arg_ident", "fields_in_fn", "fields_direct"]
+CHURNS = ["none", "calls", "loop", "big", "second"]
 
 
 def case_key(c):
@@ -168,7 +179,7 @@ def gen_cases(env, searching):
             rng.choice(["eo", "oe", "split"]), poll=1)
     # (4) invalid UTF-8: alone, with the other stream over the cap, over the cap itself
     for cap in (100, 8192):
-        for kind in ("b", "B"):
+        for kind in ("b", "B", "T"):
             add("c", "c", cap, cap - 1, kind, 10, "a", 0, "oe", reps=reps)
             add("c", "c", cap, 10, "a", cap, kind, 3, "eo", reps=reps)
             add("c", "c", cap, cap - 1, kind, cap + 1, "a", 0, "oe", poll=1, reps=reps)
@@ -183,6 +194,41 @@ def gen_cases(env, searching):
                 for (n1, cap) in ((50, 100), (101, 100)):
                     add("c", "c", cap, n1, "a", 20, "a", rng.choice([0, 5]), shape, timeout=tmo,
                         poll=rng.choice([1, 10, 50]), dur=dur)
+    # (6) what the SCRIPT finally reads: run() evaluated at top level / inside functions that return the
+    # result directly, through a local, inside an array, through nested calls / inside loops, fields read
+    # after other calls, loops, large temporaries or a second run(), and read twice; capture configuration
+    # x sizes (empty, small, around one read block, near the cap).  Run in the debug (frame poisoning)
+    # and in the release profile.
+    def size_pool(cap):
+        return [0, 1, 20, 8191, 8192, 8193, cap - 1, cap]
+    cfgs = [("c", "c"), ("c", "n"), ("n", "c"), ("i", "n")]
+    combos = [(pl, ch) for pl in PLACES for ch in CHURNS]
+    per = 1 if not thorough else 6
+    for (pl, ch) in combos:
+        for _ in range(per):
+            cap = rng.choice([10000, 10000, 100, 70000] if thorough else [10000, 10000, 100, 9000])
+            p1, p2 = rng.choice(cfgs) if rng.random() < 0.6 else ("c", "c")
+            n1 = min(rng.choice(size_pool(cap)), cap)
+            n2 = min(rng.choice(size_pool(cap)), cap)
+            nid[0] += 1
+            c = mk(nid[0], p1, p2, cap, n1, rng.choice(["a", "u"]), n2, rng.choice(["a", "u"]),
+                   rng.choice([0, 3, "null"]), rng.choice(["oe", "eo", "split"]), rng=rng, pin=0, poll=5)
+            c["place"], c["churn"], c["both_profiles"] = pl, ch, True
+            cases.append(c)
+    # every capture configuration x size class at least once, placement drawn at random
+    for (p1, p2) in cfgs:
+        for n in size_pool(10000):
+            pl, ch = rng.choice(combos)
+            nid[0] += 1
+            c = mk(nid[0], p1, p2, 10000, n, "u", n, "a", 0, "oe", rng=rng, pin=0, poll=5)
+            c["place"], c["churn"], c["both_profiles"] = pl, ch, True
+            cases.append(c)
+    # error outcomes must not depend on the placement either
+    for pl in PLACES:
+        nid[0] += 1
+        c = mk(nid[0], "c", "c", 100, 101, "a", 5, "a", 0, "oe", rng=rng, pin=0, poll=5)
+        c["place"], c["churn"] = pl, rng.choice(CHURNS)
+        cases.append(c)
     if thorough:
         # big transfers through a full pipe: the child blocks until the reader drains or stops
         for cap in (150000, 300000):
@@ -195,28 +241,48 @@ def gen_cases(env, searching):
 # ------------------------------------------------------------------------------------------------
 # running
 
-def run_impl(env, cases, name):
+def run_impl(env, cases, name, release=False):
+    """Runs the cases through `nsverif capture`.  The harness writes one line per finished case; when
+    the process dies (the runtime crashed the whole process), the first case without a line is the
+    one that killed it: it is recorded as `crash rc=<n>` and the run resumes after it."""
     d = os.path.join(env.work, "pids")
     os.makedirs(d, exist_ok=True)
-    inp = os.path.join(env.work, name + ".in")
-    outp = os.path.join(env.work, name + ".impl")
-    open(inp, "w").write("\n".join(case_line(c) for c in cases) + "\n")
-    if os.path.exists(outp):
-        os.remove(outp)
     e = dict(os.environ, C16_HELPER=helper_bin(), C16_DIR=d)
-    try:
-        p = subprocess.run([common.harness_bin(), "capture", inp, outp], env=e, stdout=subprocess.DEVNULL,
-                           stderr=subprocess.DEVNULL, stdin=subprocess.DEVNULL, timeout=3600)
-        rc = p.returncode
-    except subprocess.TimeoutExpired:
-        rc = 124
-    if rc != 0 or not os.path.exists(outp):
-        return None
     obs = {}
-    for l in open(outp).read().splitlines():
-        t = l.split(None, 1)
-        if len(t) == 2:
-            obs[t[0]] = t[1]
+    todo = list(cases)
+    rounds = 0
+    while todo:
+        rounds += 1
+        inp = os.path.join(env.work, "%s.%d.in" % (name, rounds))
+        outp = os.path.join(env.work, "%s.%d.impl" % (name, rounds))
+        open(inp, "w").write("\n".join(case_line(c) for c in todo) + "\n")
+        if os.path.exists(outp):
+            os.remove(outp)
+        try:
+            p = subprocess.run([common.harness_bin(release), "capture", inp, outp], env=e, stdout=subprocess.DEVNULL,
+                               stderr=subprocess.DEVNULL, stdin=subprocess.DEVNULL, timeout=3600)
+            rc = p.returncode
+        except subprocess.TimeoutExpired:
+            rc = 124
+        got = 0
+        if os.path.exists(outp):
+            for l in open(outp, errors="replace").read().splitlines():
+                t = l.split(None, 1)
+                if len(t) == 2 and got < len(todo) and t[0] == todo[got]["id"]:
+                    obs[t[0]] = t[1]
+                    got += 1
+        if rc == 0 and got == len(todo):
+            break
+        if rounds == 1 and got == 0 and rc != 0 and not os.path.exists(outp):
+            return None                                   # the harness itself does not start
+        if got < len(todo):
+            obs[todo[got]["id"]] = "crash rc=%d" % rc
+            got += 1
+        todo = todo[got:]
+        if rounds >= 40:
+            for c in todo:
+                obs[c["id"]] = "notrun"
+            break
     return obs
 
 
@@ -240,11 +306,15 @@ def oracle(c, o):
     t = o.split()
     cap1, cap2 = c["p1"] == "c", c["p2"] == "c"
     over1, over2 = cap1 and c["n1"] > c["cap"], cap2 and c["n2"] > c["cap"]
-    bad1, bad2 = cap1 and c["k1"] in "bB" and c["n1"] > 0, cap2 and c["k2"] in "bB" and c["n2"] > 0
+    bad1, bad2 = cap1 and c["k1"] in "bBT" and c["n1"] > 0, cap2 and c["k2"] in "bBT" and c["n2"] > 0
     pid = field(o, "pid")
     ms = int(field(o, "t") or 0)
     if pid and pid.startswith("alive"):
         return "child-left-running", "helper pid still exists after run() returned (%s)" % pid
+    if t[0] == "crash":
+        return "runtime-crashed", "the interpreter process died while running this script (%s)" % o
+    if t[0] == "notrun":
+        return None, "inconclusive-notrun"
     if t[0] in ("panic", "frontend-error", "malformed"):
         return "harness-" + t[0], o
     if t[0] == "ok":
@@ -255,6 +325,10 @@ def oracle(c, o):
             if (got_out or "").startswith("prefix") or (got_err or "").startswith("prefix"):
                 return "ok-with-truncated-output", "success with a strict prefix: out=%s err=%s" % (got_out, got_err)
             return "ok-with-wrong-output", "success with out=%s err=%s, expected %s / %s" % (got_out, got_err, want_out, want_err)
+        if field(o, "reread") == "diff":
+            return "ok-output-changes-between-reads", "two reads of the same result's stdout()/stderr() differ"
+        if field(o, "aux") == "bad":
+            return "ok-second-run-wrong-output", "the result of a second run() in the same script is wrong or its child is left"
         if over1 or over2:
             return "ok-despite-over-limit", "success although a captured stream exceeds the cap"
         if bad1 or bad2:
@@ -359,6 +433,22 @@ def correspond(env, searching=False, model=True):
     if obs is None:
         return {"evaluations": 0, "distinct_nontrivial": 0, "rule": "", "samples": [], "failures": [],
                 "disagreements": [{"stream": "capture-outcomes", "error": "nsverif capture did not run"}], "extra": {}}
+    # the placement family once more in the release profile (no poisoning: stale bytes survive until reused)
+    rel_cases = []
+    ok_rel, out_rel = common.build_harness(release=True)
+    if not ok_rel:
+        raise RuntimeError("release harness build failed: " + out_rel[-1500:])
+    for c in cases:
+        if c.get("both_profiles"):
+            r = dict(c)
+            r["id"] = "r" + c["id"]
+            r["profile"] = "release"
+            rel_cases.append(r)
+    obs_rel = run_impl(env, rel_cases, "cases_release", release=True) if rel_cases else {}
+    if obs_rel is None:
+        raise RuntimeError("nsverif capture (release) did not run")
+    obs.update(obs_rel)
+    cases = cases + rel_cases
     t_impl = time.time() - t0
     failures, disagreements, samples = [], [], []
     seen_fail = set()
@@ -379,13 +469,17 @@ def correspond(env, searching=False, model=True):
             inconclusive += 1
         if key and key not in seen_fail:
             seen_fail.add(key)
-            failures.append({"key": key, "case": case_line(c), "observed": o, "what": text, "config": c})
+            failures.append({"key": key, "case": case_line(c), "observed": o, "what": text, "config": c,
+                             "profile": c.get("profile", "debug")})
         if c["p1"] == "c" or c["p2"] == "c":
             nontrivial.add(case_key(c))
-        if len(samples) < 4 and c["shape"] in ("split", "sleep-mid") and not key:
+        if len(samples) < 5 and not key and (c["shape"] in ("split", "sleep-mid") or c.get("place", "top") != "top") \
+                and sum(1 for s in samples if (" top " in s["case"]) == (c.get("place", "top") == "top")) < 3:
             samples.append({"case": case_line(c), "observed": o})
     extra = {"outcome_histogram": hist, "impl_seconds": round(t_impl, 1), "inconclusive_cases": inconclusive,
              "join_recheck_mode_in_source": recheck_mode(), "cases_pinned": sum(1 for c in cases if c["pin"]),
+             "placement_cases": sum(1 for c in cases if c.get("place", "top") != "top"),
+             "release_profile_cases": len(rel_cases),
              "strict_error_kind_theorem_applies": recheck_mode() == "RecheckAny"}
     if model:
         t1 = time.time()
@@ -394,7 +488,7 @@ def correspond(env, searching=False, model=True):
         for e in errs:
             disagreements.append({"stream": "capture-outcomes", "error": "nsmodel capture failed: " + e})
         unjudged = unreached = 0
-        for cid, (judged, reached, fam) in sorted(res.items(), key=lambda kv: int(kv[0])):
+        for cid, (judged, reached, fam) in sorted(res.items(), key=lambda kv: (kv[0].startswith("r"), int(kv[0].lstrip("r")))):
             c = by_id[cid]
             if not judged:
                 unjudged += 1
@@ -415,7 +509,10 @@ def correspond(env, searching=False, model=True):
         "rule": "helper child driven through the real runtime: sizes 0/cap-1/cap/cap+1/cap+8192+-1 for caps 0..10000 (thorough: ..300000), "
                 "nine stdout/stderr policy combinations, exit codes 0/1/2/7/127/255/signal, ASCII / multi-byte / invalid UTF-8, "
                 "write order and splitting, SIGPIPE default or ignored, sleeps before/between/after the writes with timeout_ms "
-                "around the child's duration, poll 1..50 ms, each case unpinned and pinned to one CPU; non-trivial = distinct case "
+                "around the child's duration, poll 1..50 ms, each case unpinned and pinned to one CPU; run() evaluated at top level / "
+                "returned from functions directly, via a local, inside arrays, through nested calls, from loops, fields read after "
+                "calls / loops / large temporaries / a second run() and read twice, in the debug (poisoning) and release profiles; "
+                "non-trivial = distinct case "
                 "with at least one captured stream; oracle = complete-and-exact or a justified error, Timeout only after the "
                 "deadline, helper pid gone; every observed outcome judged by the extracted outcome_ok and searched in the "
                 "outcomes of the extracted model under a family of schedules",
@@ -439,18 +536,22 @@ def replay(env, payload):
             return 1
         t = line.split()
         acts = [] if t[11] == "-" else t[11].split(",")
+        place, churn = (t[12], t[13]) if len(t) > 13 else ("top", "none")
         code = "null" if "A" in acts else int([a for a in acts if a.startswith("x")][-1][1:])
         cfg = {"id": "0", "pin": int(t[1]), "p1": t[2], "p2": t[3], "cap": int(t[4]), "timeout": int(t[5]), "poll": int(t[6]),
                "n1": int(t[7]), "k1": t[8], "n2": int(t[9]), "k2": t[10], "code": code, "actions": acts,
-               "dur": sum(int(a[1:]) for a in acts if a.startswith("s")), "shape": "replay"}
-    reps = 600
+               "dur": sum(int(a[1:]) for a in acts if a.startswith("s")), "shape": "replay", "place": place, "churn": churn}
+    release = case.get("profile") == "release" or cfg.get("profile") == "release"
+    if release:
+        common.build_harness(release=True)
+    reps = 600 if cfg.get("place", "top") == "top" else 60
     cases = []
     for i in range(reps):
         c = dict(cfg)
         c["id"] = str(i + 1)
         c["pin"] = i % 2
         cases.append(c)
-    obs = run_impl(env, cases, "replay") or {}
+    obs = run_impl(env, cases, "replay", release=release) or {}
     bad = {}
     for c in cases:
         o = obs.get(c["id"])
